@@ -450,7 +450,9 @@ def run(ctx, only=None):
         rnd = random.Random(ctx.seed * 7919 + 12)
         nrand, maxlen = (260, 40) if ctx.tier == 'quick' else (2500, 120)
         hists = fixed_histories() + [gen_history(rnd, maxlen) for _ in range(nrand)]
+    ctx.log('built and proved; running %d histories on the implementation' % len(hists))
     impl = run_probe(hists)
+    ctx.log('implementation done; running the extracted model')
     model = None
     if have_model:
         lines = common.run_driver('instance', [model_line(h) for h in hists])
@@ -506,6 +508,11 @@ def run(ctx, only=None):
                             'distinct_nontrivial = distinct (operation, outcome, rejection class, exfiltrator, constructor/handle) combinations observed'
                             % (len(fixed_histories()), len(hists) - len(fixed_histories()), 40 if ctx.tier == 'quick' else 120))
     ctx.coverage['exhaustive'] = False
+    ctx.coverage['notes'] = [
+        'SIGPIPE (13) is never added by the generated histories: when the object is dropped while a Handle clone lives, every wake-up '
+        'send()s (MSG_DONTWAIT only, no MSG_NOSIGNAL) to a socket whose peer is closed, which raises SIGPIPE; if that same instance watches '
+        'SIGPIPE its action wakes again and the handler re-enters forever (measured: new([10, 13]); handle(); drop(object); raise(10) never '
+        'returns). This is outside the C12 statement (self-pipe wake-up, C13) and is reported separately.']
     ctx.coverage['histories'] = len(hists)
     ctx.coverage['outcome_histogram'] = hist_outcomes(hists, impl)
 
